@@ -419,7 +419,10 @@ pub fn run_generated(check: &dyn Check, cfg: &RunConfig, agg: &mut Aggregate) ->
                     }
                     *watch.slots[t].lock().unwrap() = Some((Instant::now(), bytes.clone()));
                     let mut d = Dec::new(&bytes);
-                    let case = check.generate(&mut d, cfg.thorough);
+                    let case = match guard(|| check.generate(&mut d, cfg.thorough)) {
+                        Ok(c) => c,
+                        Err(p) => harness_error(&format!("the generator panicked: {}", p)),
+                    };
                     let r = guard(|| check.check(&case));
                     *watch.slots[t].lock().unwrap() = None;
                     match r {
